@@ -125,7 +125,7 @@ def package_mutants(rng, ast, model, n):
     for _ in range(n):
         r = rng.random()
         if r < 0.10:
-            out.append(("version", set_key(ast, "version", rng.choice([0, 2, 3, (1 << 32) - 1, 1 << 32, -1, "1", None, [1]]))))
+            out.append(("version", set_key(ast, "version", rng.choice([0, 2, 3, (1 << 32) - 1, 1 << 32, (1 << 32) + 1, (1 << 33) + 1, (1 << 63) + 1, (1 << 64) - (1 << 32) + 1, -1, "1", None, [1]]))))
         elif r < 0.22:
             cs = [v for (k, v) in ast if k == "checksum"][0]
             if isinstance(cs, str) and cs:
@@ -413,6 +413,10 @@ def run(tier, seed, replay=None):
                     viol.append(dict(kind="restore", how="structural edit: " + k, base_text_hex=t1, mutant_text_hex=hx(t), profile=prof,
                                      original=base_ans, restored=x,
                                      why="a tampered package was accepted with content different from what was snapshotted"))
+                elif k.split("+")[0].split(":")[0] == "version" and '"version":1,' not in t.replace(" ", "") and '"version":1}' not in t.replace(" ", ""):
+                    viol.append(dict(kind="restore", how="structural edit: " + k, base_text_hex=t1, mutant_text_hex=hx(t), profile=prof,
+                                     original=base_ans, restored=x,
+                                     why="a package whose format version is not the supported one was restored"))
                 else:
                     ast_tot["accepted_same"] += 1
 
